@@ -413,6 +413,7 @@ def check_matrices(c, ps, t, M, S, sr, er, out):
 def code_solve_one(ps, I, rho_vals, r, func=None):
     """one mode, one z through the real solveEquation / solveEquationForFunction"""
     phi = FakeGrid([I], 1, r)
+    phi.data[:] = complex(np.nan, np.nan)          # phi is an out-parameter: whatever it held before must be overwritten
     if func is None:
         rho = FakeGrid([I], 1, r)
         rho.data[0, 0, :] = rho_vals
@@ -862,8 +863,11 @@ def grid_stage(c, out):
         for i, _ in rho.getCoords(0):
             for j, _ in rho.getCoords(1):
                 v = np.array([rng.randint(-8, 8) / 8.0 for _ in range(npts[0])]) + 1j * np.array([rng.randint(-8, 8) / 8.0 for _ in range(npts[0])])
+                if (i + j) % 3 == 1:
+                    v = v * 0.0            # an empty (mode, z) line: the solution is zero, and it has to be written
                 rho.get1DSlice(i, j)[:] = v
                 vals[(i, j)] = v
+        phi.getAllData()[:] = 7.5 - 2.5j           # phi is reused from step to step: it holds the previous potential
         ps.solveEquation(phi, rho)
         got = {(i, j): np.array(phi.get1DSlice(i, j), copy=True) for i, _ in phi.getCoords(0) for j, _ in phi.getCoords(1)}
         res['idx'] = list(rho.getGlobalIdxVals(0))
